@@ -16,7 +16,7 @@ impl Property for C06 {
         "C06"
     }
     fn rule(&self) -> &'static str {
-        "profile `binding`: signal lists of 1-10 signals (possibly without any input) in any interleaving of kinds, widths and defaults (numbers incl. 64-bit, Z); header = random subset and permutation of the legal column names (name for inputs/outputs/virtuals, name and/or name_out for bidirectionals, pairs split or partial); loop-free programs of 2-7 rows whose literal in column j of row r is a tag distinct from its neighbours' and fitting the width; Z in input columns, Z/X in expected columns; consecutive rows repeat or change single columns or return to the value before (v, w, v); in a third of the cases the driver fails on one row's call, in some cases with virtual signals the device answers Z/X so that a row becomes an error item after its vector was handed over - the caller goes on. Oracle: closed formulas - inputs = input-capable signals in list order, each from its column or its default; outputs = output-capable signals in list order then virtual signals, each expected value from name / name_out or X; changed==false => value equals the previous vector handed to the driver (from the log); header-omitted inputs never flagged changed. Non-trivial: header order != list order, or an omitted signal, or a split bidirectional pair, with >= 2 rows; distinct by signal list + header + rows."
+        "profile `binding`: signal lists of 1-10 signals (possibly without any input) in any interleaving of kinds, widths and defaults (numbers incl. 64-bit, Z); header = random subset and permutation of the legal column names (name for inputs/outputs/virtuals, name and/or name_out for bidirectionals, pairs split or partial); loop-free programs of 2-7 rows whose literal in column j of row r is a tag distinct from its neighbours' and fitting the width; Z and `(~0)` (all ones at the signal's width) in input columns, Z/X in expected columns; now and then a virtual signal called like the `_out` column of a bidirectional signal; consecutive rows repeat or change single columns or return to the value before (v, w, v); in a third of the cases the driver fails on one row's call, in some cases with virtual signals the device answers Z/X so that a row becomes an error item after its vector was handed over - the caller goes on. Oracle: closed formulas - inputs = input-capable signals in list order, each from its column or its default; outputs = output-capable signals in list order then virtual signals, each expected value from name / name_out or X; changed==false => value equals the previous vector handed to the driver (from the log); header-omitted inputs never flagged changed. Non-trivial: header order != list order, or an omitted signal, or a split bidirectional pair, with >= 2 rows; distinct by signal list + header + rows."
     }
     fn cases(&self, tier: Tier) -> u64 {
         match tier {
@@ -28,7 +28,7 @@ impl Property for C06 {
         [300, 8, 12]
     }
     fn required_classes(&self) -> Vec<&'static str> {
-        vec!["header-permuted", "input-omitted", "output-omitted", "bidir-split", "bidir-out-only", "virtual-column", "changed=false", "changed=true", "Z-default", "Z-input-entry", "row-after-error-item", "test-without-inputs"]
+        vec!["header-permuted", "input-omitted", "output-omitted", "bidir-split", "bidir-out-only", "virtual-column", "changed=false", "changed=true", "Z-default", "Z-input-entry", "row-after-error-item", "test-without-inputs", "virtual-named-like-a-bidirectional-out-column", "Z-next-to-all-ones"]
     }
     fn run(&self, s: &Streams) -> CaseOut {
         let mut out = CaseOut::new();
@@ -47,7 +47,15 @@ impl Property for C06 {
         let readable: Vec<String> =
             sigs.iter().filter(|s| s.is_output() && is_ident(&s.name)).map(|s| s.name.clone()).collect();
         let nv = if readable.is_empty() { 0 } else { ch.upto(3) };
-        let virtuals: Vec<(String, bool)> = VIRT_NAMES.iter().take(nv).map(|n| (n.to_string(), true)).collect();
+        let mut virtuals: Vec<(String, bool)> = VIRT_NAMES.iter().take(nv).map(|n| (n.to_string(), true)).collect();
+        // now and then a virtual signal is called like the `_out` column of a bidirectional
+        // signal: that one column then holds the expected value of both
+        if let (Some(v), Some(b)) = (virtuals.first_mut(), sigs.iter().find(|s| matches!(s.kind, Kind::Bidir(_)) && is_ident(&s.name))) {
+            if ch.chance(1, 6) && !sigs.iter().any(|s| s.name == format!("{}_out", b.name)) {
+                v.0 = format!("{}_out", b.name);
+                out.class("virtual-named-like-a-bidirectional-out-column");
+            }
+        }
         let header = gen_header(&mut ch, &cfg, &sigs, &virtuals);
         let cols = col_roles(&header, &sigs);
         let mut stmts = vec![];
@@ -59,6 +67,8 @@ impl Property for C06 {
         #[derive(Clone, Copy, PartialEq, Debug)]
         enum Cell {
             Num(u64),
+            /// written `(~0)`: all ones at whatever width the column's signal has
+            Ones,
             Z,
             X,
         }
@@ -82,6 +92,8 @@ impl Property for C06 {
                     ColRole::InputOnly | ColRole::Shared => {
                         if ch.chance(1, 8) {
                             Cell::Z
+                        } else if ch.chance(1, 8) {
+                            Cell::Ones
                         } else {
                             Cell::Num(tag)
                         }
@@ -96,12 +108,16 @@ impl Property for C06 {
             }
             grid.push(row);
         }
+        if (1..nrows).any(|r| (0..cols.len()).any(|j| matches!((grid[r - 1][j], grid[r][j]), (Cell::Z, Cell::Ones) | (Cell::Ones, Cell::Z)))) {
+            out.class("Z-next-to-all-ones");
+        }
         for (id, row) in grid.iter().enumerate() {
             stmts.push(Stmt::Row(
                 id,
                 row.iter()
                     .map(|c| match c {
                         Cell::Num(v) => Entry::Num(*v, Radix::Dec),
+                        Cell::Ones => Entry::Paren(Expr::un(UnOp::BitNot, Expr::lit(0))),
                         Cell::Z => Entry::Z(true),
                         Cell::X => Entry::X(true),
                     })
@@ -199,6 +215,7 @@ impl Property for C06 {
                 .filter(|s| s.is_input())
                 .map(|s| match cell_at(r, &s.name) {
                     Some(Cell::Num(v)) => (s.name.clone(), InVal::Val(v as i64), true),
+                    Some(Cell::Ones) => (s.name.clone(), InVal::Val(reduce(-1, s.bits)), true),
                     Some(Cell::Z) => (s.name.clone(), InVal::Z, true),
                     Some(Cell::X) => unreachable!("no X in input columns"),
                     None => (s.name.clone(), s.default().unwrap(), false),
@@ -243,6 +260,7 @@ impl Property for C06 {
                 .map(|s| {
                     let e = match cell_at(r, &s.expected_col().unwrap()) {
                         Some(Cell::Num(v)) => ExpVal::Val(v as i64),
+                        Some(Cell::Ones) => ExpVal::Val(reduce(-1, s.bits)),
                         Some(Cell::Z) => ExpVal::Z,
                         Some(Cell::X) | None => ExpVal::X,
                     };
@@ -269,6 +287,7 @@ impl Property for C06 {
             for (n, _) in &virtuals {
                 let e = match cell_at(r, n) {
                     Some(Cell::Num(v)) => ExpVal::Val(v as i64),
+                    Some(Cell::Ones) => ExpVal::Val(-1),
                     Some(Cell::Z) => ExpVal::Z,
                     Some(Cell::X) | None => ExpVal::X,
                 };
